@@ -49,6 +49,7 @@ class Shard:
 		self.counters = {}        # non-vacuity counters
 		self.violations = []      # dicts: {kind, case, expected, observed, [finding_key]}
 		self.nviol = 0
+		self.nviol_unkeyed = 0
 		self.samples = []
 		self.states = 0
 		self.transitions = 0
@@ -68,13 +69,16 @@ class Shard:
 			self.samples.append(obj)
 
 	def violation(self, kind, case, expected=None, observed=None, finding_key=None):
+		"""finding_key: set by a check only when the violation is exactly of the shape of a recorded known finding."""
 		self.nviol += 1
-		if len(self.violations) < MAX_VIOL_PER_SHARD or finding_key is not None and \
-				sum(1 for v in self.violations if v.get('finding_key') == finding_key) < 2 and len(self.violations) < 40:
+		same = sum(1 for v in self.violations if v.get('finding_key') == finding_key)
+		if same < (MAX_VIOL_PER_SHARD if finding_key is None else 2):
 			v = dict(kind=kind, case=case, expected=expected, observed=observed)
 			if finding_key is not None:
 				v['finding_key'] = finding_key
 			self.violations.append(v)
+		if finding_key is None:
+			self.nviol_unkeyed = getattr(self, 'nviol_unkeyed', 0) + 1
 
 	def pack(self):
 		d = dict(self.__dict__)
@@ -321,12 +325,11 @@ def main(argv=None):
 				known.setdefault(e['key'], [e, 0])[1] += 1
 			else:
 				new.append(v)
-		# violations counted but not kept (beyond per-shard cap) are new unless every kept one of that shard is known
+		# violations counted but not kept (beyond the per-shard cap): the un-keyed ones are new by definition
 		hidden_new = 0
-		for s in shards:
-			kept = s['violations']
-			if s['nviol'] > len(kept) and any(match_finding(pid, v, findings) is None for v in kept):
-				hidden_new += s['nviol'] - len(kept)
+		for s_ in shards:
+			kept_unkeyed = sum(1 for v in s_['violations'] if v.get('finding_key') is None)
+			hidden_new += max(0, s_.get('nviol_unkeyed', 0) - kept_unkeyed)
 		if not new and not capped_by_filter:
 			mod.finalize(agg, args.tier)
 		known_lines = []
@@ -336,6 +339,7 @@ def main(argv=None):
 			known_lines.append(line)
 		replay_paths = []
 		seen_kinds = {}
+		new.sort(key=lambda v: len(jdump(v['case'])))     # simplest counterexample first
 		for v in new:
 			# one replay file per distinct kind (first = simplest by enumeration order), at most 5
 			k = v['kind']
